@@ -306,14 +306,17 @@ fn run_program(ch: &Ch, p: &Program) -> ExecResult {
             let mut fut = CatchUnwind(Box::pin(run_scope(caller, env, &p.children, p.root)));
             let mut forced = false;
             let mut idles = 0;
+            let mut seen = idle.generation();
             let fin = loop {
                 let step = std::future::poll_fn(|cx| {
                     if let Poll::Ready(r) = Pin::new(&mut fut).poll(cx) {
                         return Poll::Ready(Some(r));
                     }
-                    let mut st = Box::pin(idle.settle_nowait());
-                    match st.as_mut().poll(cx) {
-                        Poll::Ready(()) => Poll::Ready(None),
+                    match idle.poll_since(seen, cx) {
+                        Poll::Ready(g) => {
+                            seen = g;
+                            Poll::Ready(None)
+                        }
                         Poll::Pending => Poll::Pending,
                     }
                 })
